@@ -105,7 +105,7 @@ def simulate(plan, hist, sched=None, subst=None, calls=None, trace=False, domain
                 kind = ev[2]
                 if kind == 'cycle':
                     # what every StreamCapture of an enabled domain must record at this edge: the PRE-edge value of its wire
-                    for l in seq:
+                    for l in netgen.my_leaves(b.hw):
                         if type(l).__name__ in ('StreamCapture', 'StreamCaptureSigned'):
                             try:
                                 d = py4hw.getObjectClockDriver(l)
